@@ -354,7 +354,10 @@ jcoHash(JavaCode c)
 	if (jcoIsImport(c))
 		return strHash(jcoImportId(c)) + strHash(jcoImportPkg(c));
 	if (jcoIsToken(c))
-		return symHash(jcoToken(c));
+		/* hash the spelling, not the address of the symbol: tables keyed by
+		 * JavaCode are iterated when declarations and imports are emitted,
+		 * so the hash must not depend on where the symbol was allocated */
+		return strHash(symString(jcoToken(c)));
 	if (jcoIsImport(c))
 		return hashCombine(strHash(jcoImportPkg(c)), strHash(jcoImportId(c)));
 	if (jcoIsLiteral(c))
